@@ -17,16 +17,21 @@ type hchanHdr struct {
 }
 
 // ChanPtr extracts the channel pointer from a channel stored in an interface.
+//
+//go:norace
 func ChanPtr(ch interface{}) unsafe.Pointer {
 	return (*[2]unsafe.Pointer)(unsafe.Pointer(&ch))[1]
 }
 
+//go:norace
 func chanState(p unsafe.Pointer) (q, c uint, closed bool) {
 	h := (*hchanHdr)(p)
 	return h.qcount, h.dataqsiz, h.closed != 0
 }
 
 // ChanLen reports buffered elements / capacity / closed of a channel (harness helper).
+//
+//go:norace
 func ChanLen(ch interface{}) (int, int, bool) {
 	p := ChanPtr(ch)
 	if p == nil {
@@ -37,6 +42,8 @@ func ChanLen(ch interface{}) (int, int, bool) {
 }
 
 // ValidateLayout panics if the channel header layout assumed here is wrong for this toolchain.
+//
+//go:norace
 func ValidateLayout() {
 	ch := make(chan int, 3)
 	chk := func(q, c uint, cl bool) {
@@ -67,6 +74,7 @@ func ValidateLayout() {
 	}
 }
 
+//go:norace
 func recvReady(p unsafe.Pointer) bool {
 	if p == nil {
 		return false
@@ -75,6 +83,7 @@ func recvReady(p unsafe.Pointer) bool {
 	return q > 0 || cl // unbuffered: the rendezvous is driven by the sender
 }
 
+//go:norace
 func (s *sched) sendReady(p unsafe.Pointer, sender *Thread) bool {
 	if p == nil {
 		return false
@@ -90,6 +99,7 @@ func (s *sched) sendReady(p unsafe.Pointer, sender *Thread) bool {
 	return false
 }
 
+//go:norace
 func (s *sched) findReceiver(p unsafe.Pointer, sender *Thread) (*Thread, int) {
 	for _, t := range s.order {
 		if t == sender || t.done {
@@ -111,6 +121,8 @@ func (s *sched) findReceiver(p unsafe.Pointer, sender *Thread) (*Thread, int) {
 
 // startHandoff releases the parked receiver of an unbuffered channel so that the real send of the
 // running thread can complete; Sent waits until the receiver has parked again.
+//
+//go:norace
 func (s *sched) startHandoff(p unsafe.Pointer, sender *Thread) {
 	q, c, cl := chanState(p)
 	if c != 0 || cl || q != 0 {
@@ -122,10 +134,12 @@ func (s *sched) startHandoff(p unsafe.Pointer, sender *Thread) {
 	}
 	r.handoff, r.hsel, r.acked = true, idx, false
 	s.handoffR = r
-	r.wake <- struct{}{}
+	unpark(r)
 }
 
 // Send is the guard placed before `ch <- v`.
+//
+//go:norace
 func Send(ch interface{}) {
 	s := s_
 	if s == nil {
@@ -146,6 +160,8 @@ func Send(ch interface{}) {
 }
 
 // Sent is placed after `ch <- v`.
+//
+//go:norace
 func Sent() {
 	s := s_
 	if s == nil || s.handoffR == nil {
@@ -156,6 +172,8 @@ func Sent() {
 }
 
 // Recv is the guard placed before a receive.
+//
+//go:norace
 func Recv(ch interface{}) {
 	s := s_
 	if s == nil {
@@ -175,6 +193,8 @@ func Recv(ch interface{}) {
 }
 
 // Recvd is placed after a receive; for a rendezvous it hands control back to the sender.
+//
+//go:norace
 func Recvd() {
 	s := s_
 	if s == nil {
@@ -187,11 +207,13 @@ func Recvd() {
 	r.acked, r.handoff = true, false
 	r.op, r.label = OpRun, "recvd"
 	s.handoffAck <- struct{}{}
-	<-r.wake
+	park(r)
 	s.afterWake(r)
 }
 
 // Close is the guard placed before close(ch).
+//
+//go:norace
 func Close(ch interface{}) {
 	s := s_
 	if s == nil || s.off() {
@@ -201,10 +223,16 @@ func Close(ch interface{}) {
 }
 
 // CaseRecv / CaseSend build select clauses.
+//
+//go:norace
 func CaseRecv(ch interface{}) SelCase { return SelCase{false, ChanPtr(ch)} }
+
+//go:norace
 func CaseSend(ch interface{}) SelCase { return SelCase{true, ChanPtr(ch)} }
 
 // Select decides a select statement: it returns the index of the clause to execute, or -1 for default.
+//
+//go:norace
 func Select(hasDefault bool, cases ...SelCase) int {
 	s := s_
 	if s == nil {
